@@ -80,6 +80,14 @@ def limit_cases():
         yield ("num%d-cltv" % ln, bytes([OP["CHECKLOCKTIMEVERIFY"]]), [v], b"", ["CHECKLOCKTIMEVERIFY"])
         yield ("num%d-csv" % ln, bytes([OP["CHECKSEQUENCEVERIFY"]]), [v], b"", ["CHECKSEQUENCEVERIFY"])
         yield ("num%d-pick" % ln, bytes([OP["PICK"]]), [b"\x09", b"\x00" * (ln - 1) + b"\x00"], b"", [])
+        # every operand position of the two- and three-operand opcodes, whatever the other operands are (no operand may go undecoded)
+        for opn, n_ops in (("WITHIN", 3), ("ADD", 2), ("SUB", 2), ("BOOLAND", 2), ("BOOLOR", 2), ("NUMEQUAL", 2), ("NUMEQUALVERIFY", 2), ("NUMNOTEQUAL", 2), ("LESSTHAN", 2),
+                           ("GREATERTHAN", 2), ("LESSTHANOREQUAL", 2), ("GREATERTHANOREQUAL", 2), ("MIN", 2), ("MAX", 2)):
+            for pos in range(n_ops):
+                for others in ((b"\x01", b"\x02"), (b"\x02", b"\x01"), (b"", b"")):
+                    st = [others[0], others[1], b"\x03"][:n_ops]
+                    st[pos] = v
+                    yield ("num%d-%s-pos%d" % (ln, opn.lower(), pos), bytes([OP[opn]]) + (O1 if opn.endswith("VERIFY") else b""), st, b"", [])
     # --- per-phase reset of the operation count (scriptSig -> scriptPubKey -> redeem script)
     for n in (200, 201, 202):
         yield ("phase-spk%d" % n, O1 + NOP * 150, [], NOP * n + O1, [])
